@@ -16,12 +16,14 @@ Univ == { P \o <<4, 1>>,                  \* before the subtree
           P \o <<5, 129, 0>>,             \* B.128          (81 00)
           P \o <<5, 129, 0, 7>>,          \* B.128.7
           P \o <<5, 129, 128, 0, 2>>,     \* B.16384.2      (81 80 00)
+          P \o <<5, 255, 127, 3>>,        \* B.16383.3      (ff 7f: the largest two-octet sub-identifier)
           P \o <<6, 0>> }                 \* after the subtree
 Bases == { P \o <<5>>,                    \* existing subtree
            P \o <<5, 127>>,               \* subtree with one leaf
            P \o <<5, 1>>,                 \* a leaf: nothing strictly below
            P \o <<5, 129, 0>>,            \* an entry that also has children
            P \o <<5, 135, 103>>,          \* absent (B.999)
+           P \o <<5, 255, 127>>,          \* B.16383: the base itself contains a boundary sub-identifier
            P \o <<6>>,                    \* the last subtree: the agent runs off the end of the MIB
            <<43>> }                       \* 1.3: everything
 CONSTANT MinSize       \* only MIBs with at least MinSize entries (quick tier thins the space)
